@@ -204,11 +204,11 @@ pub fn one_run(seed: u64, prop: Prop, i: u64, thorough: bool) -> OneRun {
 }
 
 fn rule(prop: Prop) -> String {
-    let common = "one run = one generated world (root template AST of <= ~25 nodes over a fixed data schema, 0-2 extra WXML files, WXS modules, child components from a catalogue incl. multiple/dynamic slots and a model-bound child, config knobs updateMode/backend/deep-copy) compiled by the working-tree compiler, instantiated in the real runtime, then driven by an explicit schedule of 1-12 data operations with seeded flush points (batching, single-top-level changes, splices, reorders, type flips, coarse and no-op marks, model writes, child writes, explicit update-path trees incl. `true`). After every flush the precondition monitor checks that the update-path tree handed to the generated code covers the required marks of the batch; runs end at the first uncovered flush. distinct = hash(template sources x op-kind sequence x updateMode); non-trivial = executable, at least one flush changed the node tree and at least one oracle evaluation took place.";
+    let common = "one run = one generated world (root template AST of <= ~25 nodes over a fixed data schema, 0-2 extra WXML files, WXS modules, child components from a catalogue incl. multiple/dynamic slots and a model-bound child, config knobs updateMode/backend/deep-copy) compiled by the working-tree compiler, instantiated in the real runtime, then driven by an explicit schedule of 1-12 data operations with seeded flush points (batching, single-top-level changes, splices, reorders, type flips, coarse and no-op marks, model writes, child writes, explicit update-path trees incl. `true`). After every flush the precondition monitor checks that the update-path tree handed to the generated code covers the required marks of the batch; runs end at the first uncovered flush. distinct = hash(template sources x op-kind sequence x updateMode); non-trivial = executable, at least one flush changed the node tree and at least one oracle evaluation took place. After the random runs the check walks a fixed grid of small explicit worlds (see coverage.grid), whose counters are merged into the same totals. Children: catalogue of 10 components (single / multiple / dynamic / named dynamic slots, slots in sub-templates, slot values from the child's own state changed by child_state ops, model-bound and nested-model children); after a flush that updated a child template the child's shadow tree is also compared with a pure creation of that child.";
     let specific = match prop {
-        Prop::C06 => " Oracle: live tree == tree of a fresh instance created with a deep clone of the live data (tree-path flushes).",
+        Prop::C06 => " Oracle: live tree == tree of a fresh instance created with a deep clone of the live data (tree-path flushes); an update that throws where such a creation succeeds is a violation too.",
         Prop::C07 => " Oracle: same comparison after flushes that took the binding-map fast path, plus: no field used in a position the map cannot reach is advertised in B. Schedules are biased to single top-level changes.",
-        Prop::C11 => " Oracle: at every R.r/R.v/R.p/R.l call that carries an l-value path the path addresses the value passed (get), a write through a live model listener lands at the path it holds (put), after every flush every live model listener's path still addresses what its element displays, script paths name the function passed, non-assignable expressions receive no path.",
+        Prop::C11 => " Oracle: at every R.r/R.v/R.p/R.l call that carries an l-value path the path addresses the value passed (get), a write through a live model listener lands at the path it holds (put), after every flush every live model listener's path still addresses what its element displays, script paths name the function passed, non-assignable expressions receive no path, an event delivered to any registered listener reaches the handler and path the element was last bound with, writes through inputs inside model-bound children land in the child and in the host.",
         Prop::C14 => "",
     };
     format!("{}{}", common, specific)
